@@ -208,22 +208,136 @@ Section FibCase.
   Qed.
 End FibCase.
 
+Lemma fib_model_spec mul withfiber sa a sb b s :
+  wf_fib sa a = true -> wf_fib sb b = true ->
+  fib_spec mul withfiber sa a sb b s (fib_model mul withfiber sa a b s) = true.
+Proof.
+  intros Hwa Hwb. unfold fib_model. destruct mul, withfiber.
+  - apply spec_mul_fiber; assumption.
+  - apply spec_mul_scalar; assumption.
+  - apply spec_add_fiber; assumption.
+  - apply spec_add_scalar; assumption.
+Qed.
+
+(* ---------------------------------------------------------------- histories (round 2) *)
+Lemma forallb_coords_intro (P : Z -> bool) (a : zfib) :
+  (forall x, In x (coordsP a) -> P x = true) -> forallb (fun cv => P (fst cv)) a = true.
+Proof.
+  intros H. apply forallb_forall. intros cv Hin. apply H. unfold coordsP. apply in_map. exact Hin.
+Qed.
+
+Lemma wf_fib_intro sa r :
+  sortedP r -> (forall x, In x (coordsP r) -> 0 <= x) ->
+  (forall n, sa = Some n -> 0 <= n /\ forall x, In x (coordsP r) -> x < n) ->
+  wf_fib sa r = true.
+Proof.
+  intros Hs H0 Hn. unfold wf_fib. apply andb_true_iff. split; [apply andb_true_iff; split|].
+  - apply strong_ssorted. exact Hs.
+  - apply (forallb_coords_intro (fun c => 0 <=? c)). intros x Hx. apply Z.leb_le. apply H0. exact Hx.
+  - destruct sa as [n|]; [|reflexivity]. destruct (Hn n eq_refl) as [Hn0 Hlt].
+    apply andb_true_iff. split; [apply Z.leb_le; exact Hn0|].
+    apply (forallb_coords_intro (fun c => c <? n)). intros x Hx. apply Z.ltb_lt. apply Hlt. exact Hx.
+Qed.
+
+Lemma wf_fib_parts sa a : wf_fib sa a = true ->
+  sortedP a /\ (forall x, In x (coordsP a) -> 0 <= x)
+  /\ (forall n, sa = Some n -> 0 <= n /\ forall x, In x (coordsP a) -> x < n).
+Proof.
+  intros H. destruct (wf_fib_inv _ _ H) as (Hs & Hb & Hn). split; [exact Hs|]. split.
+  - intros x Hx. specialize (Hb x Hx). lia.
+  - intros n E. subst sa. cbn [eff_shape] in *. split; [exact Hn|]. intros x Hx. specialize (Hb x Hx). lia.
+Qed.
+
+Lemma within_coords sa c n : within sa c = true -> sa = Some n -> forall x, In x (coordsP c) -> x < n.
+Proof.
+  intros H E x Hx. subst sa. cbn [within] in H. apply Z.ltb_lt.
+  exact (forallb_coords (fun c => c <? n) c H x Hx).
+Qed.
+
+Lemma wf_fib_fiadd sa a sc c :
+  wf_fib sa a = true -> wf_fib sc c = true -> within sa c = true -> wf_fib sa (fiadd a c) = true.
+Proof.
+  intros Ha Hc Hw. destruct (wf_fib_parts _ _ Ha) as (Hsa & H0a & Hna).
+  destruct (wf_fib_parts _ _ Hc) as (Hsc & H0c & _).
+  apply wf_fib_intro.
+  - apply fiadd_sorted; assumption.
+  - intros x Hx. apply fiadd_incl in Hx. destruct Hx; auto.
+  - intros n E. destruct (Hna n E) as [Hn Hlt]. split; [exact Hn|].
+    intros x Hx. apply fiadd_incl in Hx. destruct Hx as [Hx|Hx]; [auto|].
+    exact (within_coords sa c n Hw E x Hx).
+Qed.
+
+Lemma wf_fib_fimul sa a c : wf_fib sa a = true -> wf_fib sa (fimul a c) = true.
+Proof.
+  intros Ha. destruct (wf_fib_parts _ _ Ha) as (Hsa & H0a & Hna).
+  apply wf_fib_intro.
+  - unfold sortedP. rewrite fimul_coords. exact Hsa.
+  - intros x Hx. rewrite fimul_coords in Hx. auto.
+  - intros n E. destruct (Hna n E) as [Hn Hlt]. split; [exact Hn|].
+    intros x Hx. rewrite fimul_coords in Hx. auto.
+Qed.
+
+Lemma hist_step_wf pre a :
+  wf_afib a = true ->
+  match pre with None => True | Some (_, c) => wf_afib c = true /\ within (af_shape a) (af_elems c) = true end ->
+  wf_fib (af_shape a) (af_elems (hist_step pre a)) = true /\ af_shape (hist_step pre a) = af_shape a.
+Proof.
+  unfold wf_afib. intros Ha Hp. destruct pre as [[m c]|]; [|split; [exact Ha|reflexivity]].
+  destruct Hp as [Hc Hw]. destruct m; cbn [hist_step st_imul_fiber st_iadd_fiber af_elems af_shape].
+  - split; [apply wf_fib_fimul; exact Ha|reflexivity].
+  - split; [eapply wf_fib_fiadd; eassumption|reflexivity].
+Qed.
+
+Lemma pre_ok_model pre a :
+  wf_afib a = true ->
+  match pre with None => True | Some (_, c) => wf_afib c = true /\ within (af_shape a) (af_elems c) = true end ->
+  pre_ok pre a (af_elems (hist_step pre a)) = true.
+Proof.
+  intros Ha Hp. destruct (hist_step_wf pre a Ha Hp) as [Hwf1 _].
+  destruct pre as [[m c]|]; [|apply V_eqb_refl].
+  destruct Hp as [Hc Hw]. unfold wf_afib in *. unfold pre_ok.
+  rewrite Hwf1. cbn [andb].
+  destruct (wf_fib_parts _ _ Ha) as (Hsa & _ & _). destruct (wf_fib_parts _ _ Hc) as (Hsc & _ & _).
+  apply andb_true_iff. split.
+  - apply fib_ok_intro.
+    + destruct (wf_fib_parts _ _ Hwf1) as (H & _ & _). exact H.
+    + intros x Hx. destruct m; cbn [hist_step st_imul_fiber st_iadd_fiber af_elems] in Hx.
+      * rewrite fimul_coords in Hx. exact (in_a_bound _ _ _ _ Ha x Hx).
+      * apply fiadd_incl in Hx. destruct Hx as [Hx|Hx];
+          [exact (in_a_bound _ _ _ _ Ha x Hx)|exact (in_b_bound _ _ _ _ Hc x Hx)].
+  - apply forallb_forall. intros x _. apply Z.eqb_eq.
+    destruct m; cbn [hist_step st_imul_fiber st_iadd_fiber af_elems].
+    + apply fimul_getz.
+    + apply fiadd_getz; assumption.
+Qed.
+
+Lemma hist_model_spec pre mul withfiber a b s :
+  wf_afib a = true -> wf_afib b = true ->
+  match pre with None => True | Some (_, c) => wf_afib c = true /\ within (af_shape a) (af_elems c) = true end ->
+  hist_spec pre mul withfiber a b s (c11_model (CFibH pre mul withfiber a b s)) = true.
+Proof.
+  intros Ha Hb Hp. cbn [c11_model]. unfold hist_spec. rewrite unV_V_fib.
+  destruct (hist_step_wf pre a Ha Hp) as [Hwf1 Hsh].
+  rewrite (pre_ok_model pre a Ha Hp). cbn [andb]. rewrite Hsh.
+  apply fib_model_spec; [exact Hwf1|exact Hb].
+Qed.
+
 Lemma c11_model_holds c : holds c11_checker c (model c11_checker c) = true.
 Proof.
   cbn [holds model c11_checker]. unfold c11_holds.
   destruct (c11_wf c) eqn:Hwf; [|reflexivity].
-  destruct c as [i o kl kr x y|mul withfiber sa a sb b s].
+  destruct c as [i o kl kr x y|mul withfiber sa a sb b s|pre mul withfiber a b s].
   - cbn [c11_model]. cbn [c11_wf] in Hwf.
     apply andb_true_iff in Hwf. destruct Hwf as [Hwf _].
     apply andb_true_iff in Hwf. destruct Hwf as [Hwf _].
     apply andb_true_iff in Hwf. destruct Hwf as [Hsc _].
     rewrite (ops_correct pyval bop_py bop_py_swap i o kl kr x y Hsc). apply V_eqb_refl.
   - cbn [c11_wf] in Hwf. apply andb_true_iff in Hwf. destruct Hwf as [Hwa Hwb].
-    cbn [c11_model]. destruct mul, withfiber.
-    + apply spec_mul_fiber; assumption.
-    + apply spec_mul_scalar; assumption.
-    + apply spec_add_fiber; assumption.
-    + apply spec_add_scalar; assumption.
+    cbn [c11_model]. apply fib_model_spec; assumption.
+  - cbn [c11_wf] in Hwf. apply andb_true_iff in Hwf. destruct Hwf as [Hwf Hp].
+    apply andb_true_iff in Hwf. destruct Hwf as [Hwa Hwb].
+    apply hist_model_spec; [exact Hwa|exact Hwb|].
+    destruct pre as [[m c]|]; [|exact I]. apply andb_true_iff in Hp. exact Hp.
 Qed.
 
 (* the oracle is not vacuous: well-formed cases exist in every class *)
@@ -299,3 +413,57 @@ Proof.
   - split; [unfold sortedP; rewrite fimul_scalar_coords; exact Ha|].
     intros c. rewrite fimul_scalar_getz, fmul_scalar_getz by assumption. apply Z.mul_comm.
 Qed.
+
+(* ---------------------------------------------------------------- round 2 statements *)
+Lemma fiber_history : forall (m : bool) (a c : afib) (s : Z),
+  wf_afib a = true -> wf_afib c = true -> within (af_shape a) (af_elems c) = true ->
+  let a1 := hist_step (Some (m, c)) a in
+  wf_afib a1 = true
+  /\ af_shape a1 = af_shape a
+  /\ (forall x, getz x (af_elems a1)
+                = if m then getz x (af_elems a) * getz x (af_elems c)
+                  else getz x (af_elems a) + getz x (af_elems c))
+  /\ coordsP (af_elems (st_add_scalar a1 s)) = zrange (eff_shape (af_shape a) (af_elems a1))
+  /\ (forall x, getz x (af_elems (st_add_scalar a1 s))
+                = if (0 <=? x) && (x <? eff_shape (af_shape a) (af_elems a1))
+                  then s + getz x (af_elems a1) else 0)
+  /\ (forall x, getz x (af_elems (st_iadd_scalar a1 s)) = getz x (af_elems (st_add_scalar a1 s)))
+  /\ (forall x, getz x (af_elems (st_imul_scalar a1 s)) = getz x (af_elems (st_mul_scalar a1 s))).
+Proof.
+  intros m a c s Ha Hc Hw a1.
+  destruct (hist_step_wf (Some (m, c)) a Ha (conj Hc Hw)) as [Hwf1 Hsh]. fold a1 in Hwf1, Hsh.
+  assert (Hwf1' : wf_afib a1 = true) by (unfold wf_afib; rewrite Hsh; exact Hwf1).
+  destruct (wf_fib_parts _ _ Ha) as (Hsa & _ & _). destruct (wf_fib_parts _ _ Hc) as (Hsc & _ & _).
+  split; [exact Hwf1'|]. split; [exact Hsh|]. split.
+  - intros x. subst a1. destruct m; cbn [hist_step st_imul_fiber st_iadd_fiber af_elems].
+    + apply fimul_getz.
+    + apply fiadd_getz; assumption.
+  - unfold st_add_scalar, st_iadd_scalar, st_imul_scalar, st_mul_scalar. cbn [af_elems]. rewrite Hsh.
+    split; [apply fadd_scalar_coords|]. split; [intros x; apply fadd_scalar_getz|].
+    destruct (inplace_agree (af_shape a) (af_elems a1) [] s Hwf1 (SSorted_nil _)) as (_ & _ & H3 & H4).
+    split; [apply H3|apply H4].
+Qed.
+
+Lemma active_range_not_read : forall sh act act' es (b : afib) (s : Z),
+  let a := Build_afib sh act es in
+  let a' := Build_afib sh act' es in
+  af_elems (st_add_scalar a s) = af_elems (st_add_scalar a' s)
+  /\ af_elems (st_mul_scalar a s) = af_elems (st_mul_scalar a' s)
+  /\ af_elems (st_iadd_scalar a s) = af_elems (st_iadd_scalar a' s)
+  /\ af_elems (st_imul_scalar a s) = af_elems (st_imul_scalar a' s)
+  /\ af_elems (st_add_fiber a b) = af_elems (st_add_fiber a' b)
+  /\ af_elems (st_mul_fiber a b) = af_elems (st_mul_fiber a' b)
+  /\ af_elems (st_iadd_fiber a b) = af_elems (st_iadd_fiber a' b)
+  /\ af_elems (st_imul_fiber a b) = af_elems (st_imul_fiber a' b)
+  /\ af_elems (st_add_fiber b a) = af_elems (st_add_fiber b a')
+  /\ af_elems (st_iadd_fiber b a) = af_elems (st_iadd_fiber b a').
+Proof. intros. repeat split. Qed.
+
+Lemma c11_hist_examples :
+  let a := Build_afib (Some 6) None [(0, 1); (1, 2); (5, 3)] in
+  let c := Build_afib (Some 2) None [(0, 2); (1, 10)] in
+  c11_wf (CFibH (Some (false, c)) false false a (Build_afib None (Some (1, 3)) []) 2) = true
+  /\ get_active (hist_step (Some (false, c)) a) = (0, 2)
+  /\ af_elems (st_add_scalar (hist_step (Some (false, c)) a) 2)
+     = [(0, 5); (1, 14); (2, 2); (3, 2); (4, 2); (5, 5)].
+Proof. vm_compute. repeat split. Qed.
